@@ -185,6 +185,7 @@ func (d *OrderedDaemon) BackgroundWorker(name string, handler WorkerFunc, order 
 	if d.IsStopped() {
 		return ErrDaemonAlreadyStopped
 	}
+	verifYield("BackgroundWorker.afterStoppedCheck")
 
 	d.lock.Lock()
 	defer d.lock.Unlock()
@@ -249,9 +250,11 @@ func (d *OrderedDaemon) Start() {
 	if d.IsStopped() {
 		return
 	}
+	verifYield("Start.afterStoppedCheck")
 
 	d.lock.Lock()
 	defer d.lock.Unlock()
+	verifYield("Start.locked")
 
 	if !d.IsRunning() {
 		d.running.Store(true)
